@@ -283,6 +283,18 @@ def rule_frame_kind_dispatch(ctx):
         ctx.note("C14.4: the dispatcher does not switch on the numeric frame kind (e.g. an if/else chain of == tests) - not decided")
         ctx.ob(R, "dispatch switch", True, "undecided shape (not reported): no switch over Header::frame_kind(..).0", f.loc())
         return
+    # a test of the kind that only runs inside an explicit arm of another kind switch (e.g. to pick a metric label for
+    # OPEN vs CLOSE) refines an already assigned kind: its catch-all is not "an unassigned kind" - such switches are not
+    # dispatch points
+    def nested(bb0):
+        for bb1, lab1 in sw:
+            if bb1 == bb0:
+                continue
+            for l1, tgt1 in lab1.items():
+                if l1 != "else" and set(p for _, p in cfg.pred[tgt1]) == {bb1} and tgt1 != bb0 and cfg.dominates(tgt1, bb0) and not any(l2 == "else" and t2 == tgt1 for l2, t2 in lab1.items()):
+                    return True
+        return False
+    sw = [(bb, lab) for bb, lab in sw if not nested(bb)]
     forwarded = set()
     sw_blocks = frozenset(bb for bb, _ in sw)     # an if / else-if chain is several switches: a label counts where it is decided
     for bb, lab in sw:
